@@ -967,6 +967,31 @@ def discharge(hyps, goal, budget=20.0, skolems=(), want_model=True):
                 if r == 'sat' and not has_int and last:
                     v = failed_or('z3-nlsat', model_summary(s.model()) if want_model else None, insts, bctx, None)
                     if v is not None: return v
+                if r == 'sat' and has_int and last:
+                    # the relaxed model may happen to be integral: then it is a model of the mixed query itself (checked by evaluation)
+                    try:
+                        m_ = s.model(); subs_ = []; okm = True
+                        consts_ = {}
+                        for f in fs: consts_.update(free_consts(f))
+                        for key_, c_ in consts_.items():
+                            if not isinstance(c_, z3.ExprRef): okm = False; break          # an uninterpreted function survived: not evaluable
+                            if c_.sort().kind() == z3.Z3_INT_SORT:
+                                v_ = m_.eval(z3.Real(c_.decl().name() + '!R'), model_completion=True)
+                                if not (z3.is_rational_value(v_) and v_.denominator_as_long() == 1): okm = False; break
+                                subs_.append((c_, z3.IntVal(v_.numerator_as_long())))
+                            elif c_.sort().kind() == z3.Z3_REAL_SORT:
+                                v_ = m_.eval(c_, model_completion=True)
+                                if not z3.is_rational_value(v_): okm = False; break
+                                subs_.append((c_, v_))
+                            elif c_.sort().kind() == z3.Z3_BOOL_SORT:
+                                subs_.append((c_, m_.eval(c_, model_completion=True)))
+                            else: okm = False; break
+                        if okm and all(z3.is_true(z3.simplify(z3.substitute(f, *subs_))) for f in fs):
+                            log.append(('B1:relaxed-model-is-integral', 'sat', 0))
+                            v = failed_or('z3-nlsat(integral model, checked by evaluation)', dict((str(a_), str(b_)) for a_, b_ in subs_[:60]) if want_model else None, insts, bctx, None)
+                            if v is not None: return v
+                    except z3.Z3Exception:
+                        pass
                 if not has_int: break
             # B2 (short): the default solver often decides mixed queries at once
             s = z3.Solver()
